@@ -201,9 +201,12 @@ class PathExec:
             return None
         if cur.id in st.env and cur.id not in self.local_imports:
             v = st.env[cur.id]
-            if v.kind == 'py' and v.origin and v.origin.startswith('param:'):
+            if v.kind == 'py' and isinstance(v.origin, tuple) and parts:
+                # a method of a local list/dict display or comprehension: `<display>.update(...)`
+                return '<%s>.%s' % (cur.id, '.'.join(reversed(parts)))
+            if v.kind == 'py' and isinstance(v.origin, str) and v.origin.startswith('param:'):
                 return '<%s>.%s' % (v.origin[6:], '.'.join(reversed(parts))) if parts else None
-            if v.kind == 'py' and v.origin and v.origin.startswith('local:'):
+            if v.kind == 'py' and isinstance(v.origin, str) and v.origin.startswith('local:'):
                 return '<%s>.%s' % (v.origin[6:], '.'.join(reversed(parts))) if parts else None
             return None
         base = self.local_imports.get(cur.id) or self.mod.resolve(cur.id) or ('builtins.' + cur.id)
